@@ -338,6 +338,32 @@ def align_queries():
     return qs
 
 
+def coreduce_queries():
+    """static co_reduce_mod + finish_mod of br_i15_moddiv / br_i31_moddiv (main session; seeded change C09e):
+    modulus and factor tuple concrete per query, a and b symbolic (every pair < m).  A symbolic modulus or symbolic
+    factors give no verdict in 200 s on cadical/kissat/z3/cvc5 (Montgomery identity = symbolic multiplications), and
+    neither do factors of high Hamming weight (300 s, z3): the tuples are sums of at most two powers of two."""
+    qs = []
+    tuples15 = [(16384, -16384, -8192, 24576), (32768, 0, 0, 32768), (-32768, 0, 16384, 16384), (24576, 8192, -20480, 12288), (-16384, 16384, 4096, -28672), (0, 32768, -32768, 0)]
+    mods15 = [("7fff", 0x7FFF, 0, 1), ("4001", 0x4001, 0, 1), ("6487", 0x6487, 0, 1), ("3fff", 0x3FFF, 0, 1), ("0005", 5, 0, 1),
+              ("7fff_7fff", 0x7FFF, 0x7FFF, 2), ("1235_4000", 0x1235, 0x4000, 2), ("7ffd_0001", 0x7FFD, 1, 2)]
+    for (mn, m0, m1, ln) in mods15:
+        for ti, t in enumerate(tuples15):
+            quick = (ti in (0, 3) and mn in ("7fff", "4001", "3fff")) or (ti == 2 and ln == 2)
+            qs.append(Q("i15-coreduce-m%s-t%d" % (mn, ti), "C09_moddiv_unit.c", units=[], defs=["-DIMPL=15", "-DLEN=%d" % ln, "-DMC0=%d" % m0, "-DMC1=%d" % m1,
+                        "-DPA=%d" % t[0], "-DPB=%d" % t[1], "-DQA=%d" % t[2], "-DQB=%d" % t[3]], unwind=6, timeout=300, backend="z3", checks=False, flags=["--no-standard-checks"],
+                        tier="quick" if quick else "thorough",
+                        desc="i15_moddiv.c co_reduce_mod+finish_mod: a' = (a*pa+b*pb)/2^15 mod m, b' likewise, fully reduced clean words, for EVERY a, b < m; modulus %s (%d word(s)) and factors %s concrete" % (mn, ln, t)))
+    tuples31 = [(1 << 30, -(1 << 30), -(1 << 29), 3 << 29), (3 << 29, 1 << 29, -(5 << 28), 3 << 28)]
+    for (mn, m0) in (("7fffffff", 0x7FFFFFFF), ("40000001", 0x40000001), ("3fffffff", 0x3FFFFFFF)):
+        for ti, t in enumerate(tuples31):
+            qs.append(Q("i31-coreduce-m%s-t%d" % (mn, ti), "C09_moddiv_unit.c", units=[], defs=["-DIMPL=31", "-DLEN=1", "-DMC0=%d" % m0, "-DMC1=0",
+                        "-DPA=%d" % t[0], "-DPB=%d" % t[1], "-DQA=%d" % t[2], "-DQB=%d" % t[3]], unwind=6, timeout=300, backend="z3", checks=False, flags=["--no-standard-checks"],
+                        tier="quick" if (ti == 0 and mn == "7fffffff") else "thorough",
+                        desc="i31_moddiv.c co_reduce_mod+finish_mod: a' = (a*pa+b*pb)/2^31 mod m for EVERY a, b < m; one-word modulus %s and factors %s concrete" % (mn, t)))
+    return qs
+
+
 def queries():
     qs = []
     for nm, defs in (("default", []), ("ctmul_noarsh", ["-DBR_CT_MUL31=1", "-DBR_CT_MUL15=1", "-DBR_NO_ARITH_SHIFT=1"])):
@@ -354,6 +380,7 @@ def queries():
     qs += mf_queries()
     qs += align_queries()
     qs += mul_queries()
+    qs += coreduce_queries()
     if os.environ.get('C09_PROBE'):
         qs = mul_queries()
     if SWEEP:
